@@ -14,6 +14,9 @@ use crate::world::{Violation, World};
 #[derive(Clone, Debug)]
 pub struct Profile {
     pub name: &'static str,
+    /// other profiles this check rotates through: run i uses `mix[(i / 2) % len]` when i is odd, this profile when
+    /// i is even (the broad safety properties are explored under every workload family)
+    pub mix: Vec<Profile>,
     pub voters: (u64, u64),
     pub learners_max: u64,
     pub spare_max: u64,
@@ -93,6 +96,7 @@ impl Profile {
     pub fn general() -> Profile {
         Profile {
             name: "general",
+            mix: Vec::new(),
             voters: (1, 5),
             learners_max: 2,
             spare_max: 2,
